@@ -21,6 +21,7 @@ type Nid = (u32, u16);
 #[derive(Clone, Debug)]
 struct MNode {
     nid: Nid,
+    #[allow(dead_code)]
     row: u64,
     /// the vector the index was given (the SQ8 round trip of `orig` in quantised runs)
     vec: Vec<f32>,
@@ -552,11 +553,19 @@ impl<'a> Run<'a> {
             if oracle::out_of_order(w[0].1, w[1].1) {
                 let l2_sorted = dists.windows(2).all(|x| !oracle::out_of_order((x[0].2, x[0].2), (x[1].2, x[1].2)));
                 let what = if metric != Metric::L2 && l2_sorted { "ranked-by-l2-instead-of-metric" } else { "unordered" };
+                let mut extras: Vec<(&str, String)> = vec![("search", api.to_string()), ("what", what.to_string())];
+                if metric == Metric::Cosine {
+                    let unit = live_hits.iter().all(|(row, _)| {
+                        let v = &self.model.nodes[self.model.live[row]].vec;
+                        v.iter().map(|x| *x as f64 * *x as f64).sum::<f64>() == 1.0
+                    });
+                    extras.push(("vectors", if unit { "unit-norm".to_string() } else { "not-unit-norm".to_string() }));
+                }
                 let listing: Vec<String> = dists.iter().take(12).map(|(r, d, _)| format!("row {}: {:.6}", r, d.0)).collect();
                 self.viol(
                     Some(live),
                     "not-ranked-by-true-distance",
-                    &[("search", api.to_string()), ("what", what.to_string())],
+                    &extras,
                     format!(
                         "{}: {} ({}): row {} (true distance {:.6}) is returned before row {} (true distance {:.6}); true distances in returned order: [{}]; results: {}",
                         step,
@@ -857,7 +866,7 @@ fn fork_guard(timeout_s: u64) -> Forked {
     if pid == 0 {
         return Forked::Child;
     }
-    let t0 = std::time::Instant::now();
+    let t0 = RealClock::now();
     loop {
         let mut status: libc::c_int = 0;
         // SAFETY: waiting for our own child.
@@ -875,7 +884,7 @@ fn fork_guard(timeout_s: u64) -> Forked {
         if r < 0 {
             return Forked::Failed;
         }
-        if t0.elapsed().as_secs() >= timeout_s {
+        if t0.elapsed() >= timeout_s as f64 {
             // SAFETY: killing our own child.
             unsafe {
                 libc::kill(pid, libc::SIGKILL);
@@ -883,7 +892,7 @@ fn fork_guard(timeout_s: u64) -> Forked {
             }
             return Forked::Hung;
         }
-        std::thread::sleep(std::time::Duration::from_millis(1));
+        real_sleep_us(500);
     }
 }
 
@@ -894,6 +903,30 @@ fn deliver(out: &RunOutcome) -> ! {
     }
     // SAFETY: leave without unwinding into the pool's child_main of the process we were copied from.
     unsafe { libc::_exit(0) }
+}
+
+struct RealClock(f64);
+impl RealClock {
+    fn now() -> RealClock {
+        let mut ts = libc::timespec { tv_sec: 0, tv_nsec: 0 };
+        // SAFETY: raw clock_gettime: the guard's timeout must run on the real clock, std's clock is simulated.
+        unsafe {
+            libc::syscall(libc::SYS_clock_gettime, libc::CLOCK_MONOTONIC, &mut ts as *mut libc::timespec);
+        }
+        RealClock(ts.tv_sec as f64 + ts.tv_nsec as f64 * 1e-9)
+    }
+    fn elapsed(&self) -> f64 {
+        RealClock::now().0 - self.0
+    }
+}
+
+/// Sleep on the real clock (std's sleep is answered by the simulated clock and returns at once).
+fn real_sleep_us(us: i64) {
+    let ts = libc::timespec { tv_sec: 0, tv_nsec: us * 1000 };
+    // SAFETY: raw nanosleep with a valid timespec.
+    unsafe {
+        libc::syscall(libc::SYS_nanosleep, &ts as *const libc::timespec, std::ptr::null_mut::<libc::timespec>());
+    }
 }
 
 pub fn run_hnsw_case(case: &Case, case_json: &Value) -> RunOutcome {
@@ -1292,6 +1325,8 @@ pub fn run_hnsw_case(case: &Case, case_json: &Value) -> RunOutcome {
     out.count(&format!("runs_nodes/{}", hist_bucket(run.model.nodes.len())), 1);
     out.count(&format!("runs_api/{}", run.model.api()), 1);
     out.count("results_returned", run.results_checked);
+    out.count("nodes_inserted", run.model.nodes.len() as u64);
+    out.count("nodes_inserted_above_level0", run.model.nodes.iter().filter(|n| n.level > 0).count() as u64);
     if case.image_check {
         out.count("runs_with_image_check", 1);
     }
